@@ -74,7 +74,13 @@ fn keyword_snippet(rng: &mut Rng) -> (String, String, Vec<(&'static str, &'stati
 /// return shapes that exercise the macro's return rewriting and every backend's result handling: the candidates
 /// a backend accepts (one by one) are spliced in as methods of one opaque
 fn sweep_snippet(rng: &mut Rng, target: &str) -> (String, String) {
-    let cands: [&str; 30] = [
+    let cands: [&str; 36] = [
+        "pub fn res_zst_sized(&self) -> Result<XtAck, XtFault> { unimplemented!() }",
+        "pub fn res_sized_zst(&self) -> Result<XtFault, XtAck> { unimplemented!() }",
+        "pub fn res_zst_zst(&self) -> Result<XtAck, XtAck> { unimplemented!() }",
+        "pub fn res_zst_prim(&self) -> Result<XtAck, u8> { unimplemented!() }",
+        "pub fn opt_zst(&self) -> Option<XtAck> { unimplemented!() }",
+        "pub fn w_res_zst(&self, w: &mut DiplomatWrite) -> Result<(), XtAck> { unimplemented!() }",
         "pub fn w_dres_opt(&self, w: &mut DiplomatWrite) -> DiplomatResult<(), Option<u8>> { unimplemented!() }",
         "pub fn w_dres_str<'a>(&'a self, w: &mut DiplomatWrite) -> DiplomatResult<(), &'a str> { unimplemented!() }",
         "pub fn w_dres_ord(&self, w: &mut DiplomatWrite) -> DiplomatResult<(), core::cmp::Ordering> { unimplemented!() }",
@@ -110,15 +116,15 @@ fn sweep_snippet(rng: &mut Rng, target: &str) -> (String, String) {
     let mut order: Vec<usize> = (0..cands.len()).collect();
     rng.shuffle(&mut order);
     for i in order {
-        if picked.len() >= 10 { break; }
-        let one = format!("#[diplomat::bridge]\nmod ffi {{\n    #[diplomat::opaque]\n    pub struct XtShp;\n    impl XtShp {{\n        {}\n    }}\n}}\n", cands[i]);
+        if picked.len() >= 12 { break; }
+        let one = format!("#[diplomat::bridge]\nmod ffi {{\n    pub struct XtAck {{}}\n    pub struct XtFault {{ pub code: u8 }}\n    #[diplomat::opaque]\n    pub struct XtShp;\n    impl XtShp {{\n        {}\n    }}\n}}\n", cands[i]);
         let o = tool::run_backend(&one, target);
         if o.ok() {
             picked.push(cands[i]);
         }
     }
     let names: Vec<String> = picked.iter().map(|c| c.split('(').next().unwrap_or("").trim_start_matches("pub fn ").split('<').next().unwrap_or("").to_string()).collect();
-    (format!("sweep:{}", names.join(",")), format!("    #[diplomat::opaque]\n    pub struct XtShp;\n    impl XtShp {{\n{}    }}\n", picked.iter().map(|c| format!("        {c}\n")).collect::<String>()))
+    (format!("sweep:{}", names.join(",")), format!("    pub struct XtAck {{}}\n    pub struct XtFault {{ pub code: u8 }}\n    #[diplomat::opaque]\n    pub struct XtShp;\n    impl XtShp {{\n{}    }}\n", picked.iter().map(|c| format!("        {c}\n")).collect::<String>()))
 }
 
 fn includes_of(text: &str) -> Vec<String> {
